@@ -168,7 +168,7 @@ def mutate(rng, gen: Gen, L):
         L[1] = mutate(rng, gen, L[1])
         return L
     if k == "img":
-        return gen.img() if rng.random() < 0.7 else ["text", "gone"]
+        return gen.img()        # an image widget fits box and flow positions alike
     if k == "text":
         return rng.choice([["text", L[1] + "!"], gen.img()])
     if k == "fill":
